@@ -75,5 +75,17 @@ def override_then_removed():
     return p, ops
 
 
+def overwritten_checksummed_then_failing_sibling():
+    """The user overwrites a checksummed target; the next build of a consumer two levels up also has a failing checksummed
+    dependency.  redo's first look at the overwritten file says "maybe changed" (its record still has the checksum), so it is
+    handled out of band together with the failing one and the intermediate target is never started (model error once, soak 4)."""
+    p = _prog(['s0', 's1'], [('t0', dict(deps=['s0'], stamp=True)), ('t2', dict(deps=['t0', 's1'], stamp=True, flag=0)),
+                             ('t3', dict(deps=['t0'])), ('t4', dict(deps=['t3', 't2']))])
+    ops = [B(['t4']), ('flag', 't2', 1), ('uwrite', 't0', 'replace'), B(['t4']), B(['t4']), ('flag', 't2', 0), B(['t4']), B(['t4']),
+           ('urm', 't0'), B(['t4']), ('uwrite', 't0', 'inplace'), B(['t3']), B(['t4'])]
+    return p, ops
+
+
 SCENARIOS = dict((f.__name__, f) for f in (tolerated_failure_same_checksum, tolerated_failure_plain, forced_after_check_same_command,
-                                           oob_dependency_fails_before_or_after, stamp_chain_edit_cycle, stamp_sometimes, override_then_removed))
+                                           oob_dependency_fails_before_or_after, stamp_chain_edit_cycle, stamp_sometimes, override_then_removed,
+                                           overwritten_checksummed_then_failing_sibling))
